@@ -240,3 +240,5 @@ _amend('C08', 'note', "chunk_range (version sub-ranges): see evidence for its st
 _amend('C04', 'text', "(chunk_range) is checked by Kani with stated bounds, not proved.",
        "(chunk_range) is proved to cover exactly the need for every range and chunk size (Verus, std step_by/map contract assumed), with a bounded Kani twin on the real adapters.")
 _amend('C04', 'technique', "Kani (bounded) on chunk_range", "Verus on the real chunk_range with a bounded Kani twin")
+_amend('C17', 'technique', CLAIMS['C17']['technique'], CLAIMS['C17']['technique'] + "; Verus contracts on the real sqlite_pool::Config::{read_only, max_size} and the read pool's builder chain in SplitPool::create")
+_amend('C17', 'text', CLAIMS['C17']['text'], CLAIMS['C17']['text'] + " The read pool's configuration is proved to open its connections read-only: Config::read_only sets flags with READ_ONLY and without READ_WRITE/CREATE, every later builder method (max_size) changes only the field it names, and the chain in SplitPool::create ends in such flags.")
